@@ -225,6 +225,16 @@ def main():
 
     status = 0
     disagreements = result.get('disagreements', [])
+    # the extraction step itself: extracted model = kernel evaluation on the corpus
+    cross = None
+    if tier == 'thorough' or pid in ('C01', 'C05'):
+        import kernelcheck
+        try:
+            cross = kernelcheck.run(log)
+        except Exception as e:
+            cross = {'cases': 0, 'ok': False, 'detail': 'kernel cross-check could not run: %r' % e}
+        if not cross['ok']:
+            disagreements.append({'case': {'kind': 'extraction'}, 'impl': 'extracted OCaml model', 'model': 'vm_compute in the kernel: ' + cross['detail'], 'explained': False})
     unexplained = [d for d in disagreements if not d.get('explained')]
     if violations:
         v = violations[0]
@@ -265,6 +275,8 @@ def main():
         'distribution': result.get('distribution', {}),
         'exhaustive': bool(result.get('exhaustive', False)),
     }
+    if cross is not None:
+        cov['kernel_crosscheck'] = {'corpus_cases': cross['cases'], 'agrees': cross['ok']}
     cov.update(result.get('extra', {}))
     ev = {'property_id': pid, 'tier': tier, 'seed': seed, 'level': mod.LEVEL if hasattr(mod, 'LEVEL') else 'proof',
           'coverage': cov,
